@@ -26,3 +26,5 @@ def run(prog, chk):
     # a destroyed node must not stay reachable: removal unlinks it from the order list and (hash containers) from its bucket chain,
     # repairing the chain successor's back pointer, so that no later operation writes through or compares against the dead node
     C.unlink_idiom(prog, chk, "C04.g", ("List", "Map", "MultiMap", "HashMap", "HashSet"))
+    # ... and clear() leaves no pointer to a destroyed node behind (list ends, sentinel back pointer, root, buckets)
+    C.clear_resets(prog, chk, "C04.h", ("List", "Map", "MultiMap", "HashMap", "HashSet"))
